@@ -2974,7 +2974,12 @@ class Recipe:
             # one side is rounded up by the other is rounded down by - except at a tie, and in the last digits of a float
             # when one of them holds litres). Nothing else is allowed for, however many wells and steps there are.
             noise += 1e-15 * (abs(before_substances) + abs(after_substances))  # (the sums above, in floats)
-            if step.operator in ('transfer', 'remove'):
+            # (... and so does a solution made from a source, or with a solvent container, of what that holds - not of the
+            # solvent or the solutes it adds from outside)
+            moved_by_a_solution_step = (
+                (step.operator == 'solution_from' and substance != step.operands[2]) or
+                (step.operator == 'solution' and step.frm[0] is not None and substance in step.frm[0].contents))
+            if step.operator in ('transfer', 'remove') or moved_by_a_solution_step:
                 # (a remove step moves material to the trash: what the object holds less is what the trash holds, up to
                 # the order the two were summed in - over 384 wells that is more than a stored digit)
                 def held(what):
